@@ -52,6 +52,7 @@ class _FifoFeeder:
 
         os.mkfifo(path)
         self.stop = False
+        self.written = 0  # bytes handed to the pipe so far
 
         def feed():
             fd = None
@@ -79,6 +80,7 @@ class _FifoFeeder:
                         time.sleep(0.0002)
                     n = sizes[i % len(sizes)]
                     piece = data[pos: pos + n]
+                    self.written = min(pos + n, len(data))
                     while piece:
                         piece = piece[os.write(fd, piece):]
                     pos += n
